@@ -339,7 +339,7 @@ pub fn run_check<E: Engine>(prop: &str, tier: &str, level: &str, extra: serde_js
 
     // 2. Seeded search.
     let batch = run_batch::<E>(prop, seed, total);
-    if !batch.out.harness_errors.is_empty() {
+    if !batch.out.harness_errors.is_empty() && batch.out.violations.is_empty() && batch.crashes.is_empty() && violations.is_empty() {
         for (i, e) in &batch.out.harness_errors {
             eprintln!("harness error at run {i}: {e}");
         }
